@@ -83,6 +83,15 @@ pub fn one_case(rep: &Report, idx: usize, case: &CCase, inj: &Injection, reader_
             spec.force = true;
             rep.count("clones_over_existing_file(--force-create)", 1);
         }
+        // An eighth of the clones update an older version of the file in place
+        // (--seed-output): still "cloning an archive that compress produced".
+        if reader_sel & 0xc0 != 0xc0 && reader_sel & 0xe00 == 0xe00 && !source.is_empty() {
+            let mut erng = Rng::new(reader_sel ^ 0x01d);
+            let e = *erng.pick(&[crate::gen::Edit::Insert, crate::gen::Edit::Delete, crate::gen::Edit::Prefix, crate::gen::Edit::Swap, crate::gen::Edit::Mixed, crate::gen::Edit::Duplicate]);
+            std::fs::write(&out_path, crate::gen::apply_edit(&mut erng, &source, e)).map_err(|e| e.to_string())?;
+            spec.seed_output = true;
+            rep.count("clones_in_place_over_older_version(--seed-output)", 1);
+        }
         let server;
         let who;
         if reader_sel & 1 == 0 {
